@@ -74,6 +74,10 @@ MODEL_FAULTS = [
      '<connection component_1="zp" component_2="zq"><map_variables variable_1="a" variable_2="a"/></connection>', ['VARIABLE_INTERFACE_VALUE', 'MAP_VARIABLES_VARIABLE1_ATTRIBUTE', 'MAP_VARIABLES_VARIABLE2_ATTRIBUTE', 'MAP_VARIABLES_ELEMENT']),
     ('equivalence-incompatible-units', '<component name="zp"><variable name="a" units="second" interface="public"/></component><component name="zq"><variable name="a" units="volt" interface="public"/></component>'
      '<connection component_1="zp" component_2="zq"><map_variables variable_1="a" variable_2="a"/></connection>', ['MAP_VARIABLES_ELEMENT', 'MAP_VARIABLES_UNIQUE', 'MAP_VARIABLES_VARIABLE1_ATTRIBUTE']),
+    ('reset-order-duplicated-across-a-chain-of-equivalences', '<component name="zr1"><variable name="a" units="second" interface="public"/><variable name="t" units="second"/><reset variable="a" test_variable="t" order="905">' + TV % CN + RV % CN + '</reset></component>'
+     '<component name="zr2"><variable name="b" units="second" interface="public"/></component>'
+     '<component name="zr3"><variable name="c" units="second" interface="public"/><variable name="t" units="second"/><reset variable="c" test_variable="t" order="905">' + TV % CN + RV % CN + '</reset></component>'
+     '<connection component_1="zr1" component_2="zr2"><map_variables variable_1="a" variable_2="b"/></connection><connection component_1="zr3" component_2="zr2"><map_variables variable_1="c" variable_2="b"/></connection>', ['RESET_ORDER_UNIQUE']),
     ('import-without-location', '<import xmlns:xlink="http://www.w3.org/1999/xlink" xlink:href=""><units units_ref="x" name="zimp"/></import>', ['IMPORT_HREF', 'IMPORT_HREF_LOCATOR']),
     ('import-units-without-reference', '<import xmlns:xlink="http://www.w3.org/1999/xlink" xlink:href="lib.cellml"><units units_ref="" name="zimp"/></import>', ['IMPORT_UNITS_UNITS_REFERENCE', 'IMPORT_UNITS_UNITS_REFERENCE_VALUE']),
     ('import-component-name-duplicated', '<import xmlns:xlink="http://www.w3.org/1999/xlink" xlink:href="lib.cellml"><component component_ref="x" name="zimc"/></import><component name="zimc"/>', ['IMPORT_COMPONENT_NAME_UNIQUE', 'COMPONENT_NAME_UNIQUE']),
@@ -328,9 +332,10 @@ def run(chk, replay=None):
             a_ = [' id="%s"' % x if x else '' for x in slots]
             doc = ('<?xml version="1.0" encoding="UTF-8"?>\n<model xmlns="http://www.cellml.org/cellml/2.0#" name="m"%s>'
                    '<units name="u0"%s><unit units="second"%s/><unit units="metre"%s/></units><units name="u1"%s><unit units="second"%s/><unit units="second"%s/></units>'
-                   '<component name="a"%s><variable name="x" units="u0" interface="public"%s/><variable name="y" units="u0"%s/></component>'
-                   '<component name="b"%s><variable name="x" units="u0" interface="public"%s/></component>'
-                   '<connection component_1="a" component_2="b"%s><map_variables variable_1="x" variable_2="x"%s/></connection></model>') % tuple(a_)
+                   '<component name="c"%s><variable name="ab" units="u0" interface="public"%s/><variable name="y" units="u0"%s/></component>'
+                   '<component name="bc"%s><variable name="a" units="u0" interface="public"%s/></component>'
+                   '<connection component_1="c" component_2="bc"%s><map_variables variable_1="ab" variable_2="a"%s/></connection></model>') % tuple(a_)
+            # (variable 'ab' of component 'c' and variable 'a' of component 'bc': the two ends of the equivalence spell the same when concatenated)
             res = validate(doc)
             got = sorted(re.search(r"attribute '([^']*)'", i[2]).group(1) for i in res[1] if i[1] == 'XML_ID_ATTRIBUTE') if res else None
             ids = [x for x in slots if x]
